@@ -3,7 +3,8 @@
 (* and crafted .o/.a files:                                                  *)
 (*  {"id","files","refs" (the scenario, as Link.tla reads it),"base","end"   *)
 (*   (first address behind the program),"big" (byte order),"badfile" (one of *)
-(*   the files is not an object file),"rc" (exit status),"out" (an output    *)
+(*   the files is not an object file),"own" (names the program defines as    *)
+(*   labels),"rc" (exit status),"out" (an output                             *)
 (*   file was written),"file" (records of the .hex output),"syms" (symbol     *)
 (*   table of the listing)}                                                  *)
 EXTENDS Link, ObjFormats, Json, IOUtils
@@ -24,11 +25,15 @@ PlacedRightE(e, n, sym, img) ==
         <<sym[n] + 4 * w + b - 1, (IF e.big THEN Rev(Bytes(LinkedWord(f, w, sym))) ELSE Bytes(LinkedWord(f, w, sym)))[b]>> \in img
 
 Why(e) ==
-  LET need == Needed(e.files, e.refs)
-      wanterr == e.badfile \/ ~Resolvable(e.files, e.refs) IN
+  LET \* references to names the program defines itself (e.own) are not references to imported code
+      ext == SelectSeq(e.refs, LAMBDA n : \A i \in 1..Len(e.own) : e.own[i] # n)
+      need == Needed(e.files, ext)
+      wanterr == e.badfile \/ ~Resolvable(e.files, ext) IN
   IF wanterr THEN (IF e.rc # 0 /\ ~e.out THEN <<>> ELSE <<"ErrorExpected">>)
   \* an object in a byte order the importer does not read is an unsupported file: a clean error is right
   ELSE IF e.big /\ e.rc # 0 /\ ~e.out THEN <<>>
+  \* a program label with the name of an imported function: a duplicate-definition error is acceptable too
+  ELSE IF e.own # <<>> /\ e.rc # 0 /\ ~e.out THEN <<>>
   ELSE IF e.rc # 0 \/ ~e.out THEN <<"UnexpectedError">>
   ELSE IF ~HexValid(e.file) THEN <<"skip:output file unreadable">>
   ELSE LET img == ImgOf(e)
@@ -38,7 +43,7 @@ Why(e) ==
       (IF \A n \in need : PlacedRightE(e, n, sym, img) THEN <<>> ELSE <<"PlacedRight">>)
       \o (IF NoOverlap(e.files, need, sym) THEN <<>> ELSE <<"PlacedOnce">>)
       \o (IF OnlyNeeded(e.files, need, sym, img, e.end) THEN <<>> ELSE <<"OnlyNeeded">>)
-      \o (IF (DOMAIN sym) \cap Defined(e.files) = need THEN <<>> ELSE <<"OnlyNeededSymbols">>)
+      \o (IF ((DOMAIN sym) \cap Defined(e.files)) \ {e.own[i] : i \in 1..Len(e.own)} = need THEN <<>> ELSE <<"OnlyNeededSymbols">>)
 
 Report ==
   IF l > Len(Tr) THEN PrintT("VERDICT " \o ToJson([done |-> Len(Tr)]))
